@@ -10,6 +10,7 @@ import (
 	"flag"
 	"fmt"
 	"os"
+	"runtime/debug"
 	"testing"
 )
 
@@ -76,6 +77,10 @@ func finish(res *RunResult, verbose bool, sample bool) {
 }
 
 func TestSim(t *testing.T) {
+	// runaway recursion in go-upf ends the process at 64 MB of stack instead of 1 GB:
+	// same fatal error, found in a fraction of a second and without 16 workers taking a
+	// gigabyte each
+	debug.SetMaxStack(64 << 20)
 	emit := func(r *RunResult) {
 		b, _ := json.Marshal(r)
 		fmt.Println(string(b))
